@@ -267,7 +267,8 @@ PLAN["C20"] = {
                    "the stack scanner itself is proved against has_ptr for stack copies of any length (unit stack_scan, byteorder stand-in) and cross-checked by Kani on the real byteorder code at stated lengths; dump() reports PrincipalMappingNotReferenced (thorough)",
     "verus": [dict(STACK, functions=["fill_thread_stack", "crash_thread_references_principal_mapping"], tags=["C20"]),
               {"unit": "find_mapping", "functions": ["find_mapping_no_bias", "find_mapping", "may_be_stack"], "tags": ["C20"], "tiers": Q},
-              {"unit": "stack_scan", "functions": ["stack_has_pointer_to_mapping"], "tags": ["C20"], "tiers": Q}],
+              {"unit": "stack_scan", "functions": ["stack_has_pointer_to_mapping"], "tags": ["C20"], "tiers": Q},
+              {"unit": "dump", "functions": ["dump"], "tags": ["C20"], "tiers": Q}],
     "kani": [{"tiers": Q, "jobs": 4, "timeout": 900, "harnesses": K_HAS_PTR},
              {"tiers": T, "jobs": 1, "timeout": 1800, "mem_gb": 24, "harnesses": {"vk_has_ptr_len24": H("B", "MappingInfo::stack_has_pointer_to_mapping", "24-byte symbolic stack copy")}},
              G_DUMP],
@@ -296,7 +297,7 @@ PLAN["C04"] = {
     "explanation": "ThreadInfoX86::fill_cpu_context proved (Kani, complete) for all register contents; suspend_threads keeps exactly the attachable "
                    "threads in order (bounded); the per-thread loop of thread_list_stream::write emits one record per retained thread with its own context "
                    "(bounded, thorough); dump()/generate_dump() never read the target after resuming it (complete relative to stubs, thorough)",
-    "verus": [],
+    "verus": [{"unit": "dump", "functions": ["dump"], "tags": ["C04"], "tiers": Q}],
     "kani": [{"tiers": Q, "jobs": 3, "timeout": 1200, "harnesses": dict(K_REGS_THREAD, **K_SUSPEND_THREADS)},
              {"tiers": T, "jobs": 3, "timeout": 5400, "mem_gb": 20, "harnesses": dict(K_TLS, **K_GENERATE)},
              G_DUMP],
@@ -381,11 +382,12 @@ PLAN["C12"] = {
     "level": "model_checking",
     "explanation": "sanitize_stack_copy against the statement: bounded-exhaustive native enumeration of boundary words/offsets/mapping orders (quick), "
                    "Kani with fully symbolic 8- and 12-byte stacks and a symbolic mapping (thorough)",
-    "verus": [{"unit": "find_mapping", "functions": ["find_mapping_no_bias"], "tags": ["C12"], "tiers": Q}],
+    "verus": [{"unit": "find_mapping", "functions": ["find_mapping_no_bias"], "tags": ["C12"], "tiers": Q},
+              dict(STACK, functions=["fill_thread_stack"], tags=["C12"])],
     "kani": [{"tiers": T, "jobs": 2, "timeout": 5400, "mem_gb": 24, "harnesses": K_SANITIZE}],
     "native": [N_SANITIZE],
     "twins": TWINS_STACK,
-    "trusted": ["Verus cannot read sanitize_stack_copy (chunks_exact_mut, vec! table); of its callees only find_mapping_no_bias is proved"],
+    "trusted": ["Verus cannot read sanitize_stack_copy (chunks_exact_mut, vec! table); of its callees only find_mapping_no_bias is proved; that fill_thread_stack applies it to the copied stack with the thread's stack pointer and offset whenever sanitising is configured IS proved (its result is an uninterpreted function there)"],
     "samples": ["qualifies(w) <=> |w as isize| <= 4096 || w in stack mapping || w in first mapping containing it and that one is executable"],
 }
 
@@ -446,7 +448,7 @@ PLAN["C11"] = {
     "level": "model_checking",
     "explanation": "suspend_threads records one soft error per unattachable thread and keeps going (bounded); generate_dump keeps succeeding when any "
                    "best-effort writer fails, leaves an unused entry and records exactly one soft error per failed step (complete relative to stubs, thorough)",
-    "verus": [],
+    "verus": [{"unit": "dump", "functions": ["dump"], "tags": ["C11"], "tiers": Q}],
     "kani": [{"tiers": Q, "jobs": 2, "timeout": 900, "harnesses": K_SUSPEND_THREADS},
              {"tiers": T, "jobs": 2, "timeout": 5400, "mem_gb": 24, "harnesses": K_GENERATE}],
     "native": [{"stem": "minidump_writer", "filter": "bprime_soft", "tiers": Q, "tests": {
